@@ -348,8 +348,11 @@ Op hall_matrix_symbol(const char* start, const char* end, int pos, int& prev) {
     op.rot = alter_order(op.rot, 2, 0, 1);
   else if (principal_axis == 'y')
     op.rot = alter_order(op.rot, 1, 2, 0);
-  if (fractional_tran)
+  if (fractional_tran) {
+    if (!principal_axis)
+      fail("screw translation without principal axis: " + std::string(start, end));
     op.tran[principal_axis - 'x'] += Op::DEN / N * fractional_tran;
+  }
   prev = N;
   return op;
 }
